@@ -27,12 +27,13 @@ func NewIndividualIndexHeader(document *gedcom.Document, selectedLetter rune, li
 func GetIndexLetters(document *gedcom.Document, livingVisibility LivingVisibility) []rune {
 	letterMap := map[rune]bool{}
 	for _, individual := range document.Individuals() {
-		switch livingVisibility {
-		case LivingVisibilityShow, LivingVisibilityPlaceholder:
-			letterMap[getIndexLetter(individual)] = true
-		case LivingVisibilityHide:
-			// nothing
+		// Only the living individuals are hidden, everybody else still needs
+		// their letter.
+		if individual.IsLiving() && livingVisibility == LivingVisibilityHide {
+			continue
 		}
+
+		letterMap[getIndexLetter(individual)] = true
 	}
 
 	indexLetters := []rune{}
